@@ -262,6 +262,11 @@ func (f *Formatter) walkArgumentList(s ast.SelectionSet) map[string]string {
 				res[a.Value.Raw] = ad.Type.String()
 			}
 		}
+		for _, d := range field.Directives {
+			for k, v := range f.walkDirectiveArgumentList(d) {
+				res[k] = v
+			}
+		}
 		if field.SelectionSet != nil {
 			stepRes := f.walkArgumentList(field.SelectionSet)
 			for k, v := range stepRes {
@@ -270,6 +275,30 @@ func (f *Formatter) walkArgumentList(s ast.SelectionSet) map[string]string {
 		}
 	}
 
+	return res
+}
+
+// walkDirectiveArgumentList returns the variables used in the arguments of a directive
+// (f.e. @include(if: $flag)) with the type the directive declares for that argument
+func (f *Formatter) walkDirectiveArgumentList(d *ast.Directive) map[string]string {
+	res := make(map[string]string)
+	for _, a := range d.Arguments {
+		if a.Value == nil || a.Value.Kind != ast.Variable {
+			continue
+		}
+		// @skip and @include take a Boolean!
+		argType := "Boolean!"
+		def := d.Definition
+		if def == nil && f.schema != nil {
+			def = f.schema.Directives[d.Name]
+		}
+		if def != nil {
+			if ad := def.Arguments.ForName(a.Name); ad != nil {
+				argType = ad.Type.String()
+			}
+		}
+		res[a.Value.Raw] = argType
+	}
 	return res
 }
 
